@@ -59,6 +59,7 @@ class Path:
         self.cells = {}      # cell id -> VTuple / VSeq   (local mutable lists)
         self.events = []     # call events: (name, args...)
         self.alloc = 0
+        self.alloc_base = z3.Int("alloc0")   # allocation frontier = alloc_base + alloc
         self.tags = []       # free-form notes (which branch etc.)
 
     def fork(self):
@@ -70,12 +71,17 @@ class Path:
         q.cells = dict(self.cells)
         q.events = list(self.events)
         q.alloc = self.alloc
+        q.alloc_base = self.alloc_base
         q.tags = list(self.tags)
         return q
 
     @property
     def frame(self):
         return self.frames[-1]
+
+    @property
+    def frontier(self):
+        return self.alloc_base + self.alloc
 
     def assume(self, c):
         if z3.is_true(c):
@@ -892,7 +898,7 @@ class Exec:
                     self.emit("argtype:%s" % what, p, is_sort_cond(v.t, sort), "argtype")
                 return v
             return VDyn(box(v))
-        if isinstance(sort, Func):
+        if isinstance(sort, (Func, Cls)):
             return v
         if sort is Bool and not isinstance(v, (VBool, VDyn)) and what == "result" and \
                 self.current_contract is not None and "truthy_result" in self.current_contract.note:
@@ -991,13 +997,21 @@ class Exec:
             p.assume(nc)
         # normal exit
         oldp = p.fork()
+        self._advance = False
+        front0 = p.frontier
         self.havoc(p, c.modifies, env)
+        if self._advance:
+            nb = V.fresh("allocb", IntS)
+            p.assume(nb >= front0)
+            p.alloc_base, p.alloc = nb, 0
         assumptions = []
         res = NONE
         if c.result is not None:
             res = make_symbolic("r_" + c.qualname.rsplit(".", 1)[-1], c.result, assumptions)
         for a in assumptions:
             p.assume(a)
+        if isinstance(res, VObj) and "fresh_result" in c.note:
+            p.assume(z3.And(res.t >= front0, res.t < p.frontier))
         post = SpecEnv(self, p, dict(pre.env), old=oldp, contract=c)
         post.env["result"] = res
         for eid, etxt, _tag in c.ensures:
@@ -1021,7 +1035,15 @@ class Exec:
                     if srt is None:
                         raise Unsupported("modifies of undeclared field %s" % fld)
                     self.bi.heap_array(p, fld, srt)
-                if at is not None:
+                if at == "new":
+                    # only objects allocated by the callee may differ: everything below the frontier is kept
+                    old_arr = p.heap[fld]
+                    na = V.fresh("h_" + fld, old_arr.sort())
+                    r = V.fresh("hr", IntS)
+                    p.heap[fld] = na
+                    p.assume(z3.ForAll([r], z3.Implies(r < p.frontier, na[r] == old_arr[r]), patterns=[na[r]]))
+                    self._advance = True
+                elif at is not None:
                     o = env[at]
                     cell = V.fresh("h_" + fld, p.heap[fld].sort().range())
                     p.heap[fld] = z3.Store(p.heap[fld], o.t, cell)
